@@ -59,6 +59,29 @@ def appends(node, name):
     return out
 
 
+def scan_reads(ck, P, f, body, init, scan, buf):
+    """the scan part as a whole (from the index initialisation to the end of the scan loop) over one symbolic buffer, with
+    the first three iterations peeled: every index / struct.unpack of those iterations is proven in bounds - this also
+    covers state carried from one iteration to the next, which the per-statement conditions above do not see"""
+    fn = "parse_space_packets"
+    if not init or body.index(init[-1]) > body.index(scan):
+        ck.unknown("X-BUF", fn, "scan part located", "index initialisation not found before the scan loop")
+        return
+    it = new_interp(P); env = Env()
+    it.peel_depth = 3
+    env.vars.update(concatenated_packets=buf, analysis_queue=sym("analysis_queue", ty=("list", "bytes")), tm_list=sym("tm_list", ty=("list", "bytes")),
+                    ids_raw=sym("ids_raw", ty=("list", "int")))
+    it.where.append(f.short)
+    try:
+        it.block(body[body.index(init[-1]):body.index(scan) + 1], env, f.module, f, [])
+    except Unsupported as e:
+        ck.unknown("X-BUF", fn, "scan part interpreted", str(e))
+        return
+    n = D.check_xbuf(ck, it, fn + " [scan part, 3 peeled iterations]")
+    D.check_escape(ck, it, fn + " [scan part, 3 peeled iterations]", allowed=("ValueError",))
+    ck.floor("reads of the scan part", n, 6)
+
+
 def run(ck):
     P = Program(ck.repo)
     ck.explanation = (
@@ -181,6 +204,16 @@ def run(ck):
     ck.verdict("P-MUST", fn, "drain: every queued chunk is consumed, oldest first, into one initially empty buffer", probs, "while queue: buf.extend(queue.popleft())")
     init = [s for s in body[body.index(drain):body.index(scan)] if isinstance(s, ast.Assign) and ast.unparse(s.targets[0]) == "current_idx"]
     ck.verdict("P-MUST", fn, "the scan starts at index 0", [] if init and ast.unparse(init[-1].value) == "0" else ["current_idx is not initialised to 0 before the scan loop"], "current_idx = 0")
+    # whole scan part, three peeled iterations (independent of the statement skeleton matched below)
+    scan_reads(ck, P, f, body, init, scan, buf)
+    try:
+        scan_skeleton(ck, P, it, f, h, body, scan, buf, idx, L)
+    except Unsupported as e:
+        ck.unknown("P-MUST", fn, "scan loop conditions evaluated statement by statement", f"the loop uses state the per-statement evaluation cannot resolve: {e}")
+
+
+def scan_skeleton(ck, P, it, f, h, body, scan, buf, idx, L):
+    fn = "parse_space_packets"
     # (2) scan loop skeleton
     sbody = list(scan.body)
     lead = []
